@@ -19,7 +19,7 @@ def mem_bytes(m):
 
 
 def add(name, flav, *, policy=None, limit=None, ttl=None, mem=None, fw=None, cname=None, tags=(), events=(), deps=(),
-        inv=False, cif=False, ret='u64', args=(('a', 'u64'),), recv=None, gates=0, body=None, group='cfg', fw_lit=None, rev=False):
+        inv=False, cif=False, ret='u64', args=(('a', 'u64'),), recv=None, gates=0, body=None, group='cfg', fw_lit=None, rev=False, via_macro=False):
     """flav: G (sync global), T (sync thread), A (async)"""
     _id[0] += 1
     sid = _id[0]
@@ -44,7 +44,7 @@ def add(name, flav, *, policy=None, limit=None, ttl=None, mem=None, fw=None, cna
                              ttl=ttl, max_memory=mem_bytes(mem), frequency_weight=(float(fw) if fw is not None else None),
                              cache_name=cname or name, tags=list(tags), events=list(events), dependencies=list(deps),
                              invalidate_on=inv, cache_if=cif, result=is_res),
-               ret=ret, args=[list(a) for a in args], recv=recv, gates=gates, body=body)
+               ret=ret, args=[list(a) for a in args], recv=recv, gates=gates, body=body, via_macro=via_macro)
     S.append(rec)
     return rec
 
@@ -83,6 +83,10 @@ def render(r):
     attr = ', '.join(r['attrs'])
     mac = f'#[{r["macro"]}({attr})]' if attr else f'#[{r["macro"]}]'
     asy = 'async ' if r['flavour'] == 'A' else ''
+    if r.get('via_macro'):
+        # the item is produced by a macro_rules! macro whose fragments (`$ret:ty`, `$t:ty`) reach the attribute macro wrapped in invisible groups
+        out.append(f'mk_item! {{ {mac} pub {asy}fn {name}({", ".join(params)}) -> {ret} {{ {gates}{body} }} }}')
+        return out
     out.append(mac)
     out.append(f'pub {asy}fn {name}({", ".join(params)}) -> {ret} {{ {gates}{body} }}')
     return out
@@ -185,6 +189,20 @@ def main():
         add(f'gk_{k}', 'G', args=a, group='key')
         add(f'ak_{k}', 'A', args=a, group='key')
     add('tk_strstr', 'T', args=shapes['strstr'], group='key')
+    # ---- bodies that leave through an explicit `return` (the wrapper must still see the result)
+    RET = 'if a % 2 == 0 {{ return env::body({id}, a); }} env::body({id}, a)'.replace('{{', '{').replace('}}', '}')
+    RETRES = 'if a % 2 == 0 {{ return env::body_res({id}, a); }} env::body_res({id}, a)'.replace('{{', '{').replace('}}', '}')
+    for f in 'GTA':
+        add(f'{f.lower()}_ret_early', f, body=RET, group='plain')
+        add(f'{f.lower()}_ret_cif', f, cif=True, body=RET, group='cif')
+        add(f'{f.lower()}_ret_res', f, ret='Result<u64, u8>', body=RETRES, group='res')
+        add(f'{f.lower()}_ret_inv', f, inv=True, body=RET, group='inv')
+    # ---- items produced by macro_rules! (types arrive as `$t:ty` fragments)
+    for f in 'GTA':
+        add(f'{f.lower()}_mr_plain', f, via_macro=True, group='plain')
+        add(f'{f.lower()}_mr_res', f, ret='Result<u64, u8>', via_macro=True, group='res')
+        add(f'{f.lower()}_mr_res_std_mem_l2', f, ret='std::result::Result<u64, u8>', mem='1KB', limit=2, policy='lru', via_macro=True, group='res')
+        add(f'{f.lower()}_mr_cif_res', f, cif=True, ret='Result<u64, u8>', via_macro=True, group='cif')
     # ---- larger limits for invalidation followed by overflows
     for f in 'GA':
         add(f'{f.lower()}_arc_l4', f, policy='arc', limit=4, group='cfg')
@@ -211,6 +229,10 @@ def main():
     add('a_gate2_inv_cif_l2', 'A', gates=2, inv=True, cif=True, limit=2, policy='lru', group='gate')
 
     lines = ['// @generated by gen_subjects.py -- do not edit', '']
+    lines += ['macro_rules! mk_item {',
+              '    ($(#[$m:meta])* $v:vis fn $name:ident ($($a:ident : $t:ty),*) -> $ret:ty { $($body:tt)* }) => { $(#[$m])* $v fn $name($($a: $t),*) -> $ret { $($body)* } };',
+              '    ($(#[$m:meta])* $v:vis async fn $name:ident ($($a:ident : $t:ty),*) -> $ret:ty { $($body:tt)* }) => { $(#[$m])* $v async fn $name($($a: $t),*) -> $ret { $($body)* } };',
+              '}', '']
     lines += ['#[derive(Debug, Clone, PartialEq)]', 'pub struct Pt { pub x: u32, pub y: u32 }', 'impl cachelito_core::DefaultCacheableKey for Pt {}', '']
     for r in S:
         lines += render(r) + ['']
@@ -227,10 +249,28 @@ def main():
         r = add(nm, flav, args=args, recv=recv, group='method', body='env::body2({id}, self.id as u64, %s)' % ('a' if args and args[0][1] == 'u64' else '0'), **kw)
         meth += ['    ' + l for l in render(r)]
     lines += ['#[derive(Debug, Clone, PartialEq)]', 'pub struct Svc { pub id: u32 }', 'impl cachelito_core::DefaultCacheableKey for Svc {}', 'impl Svc {'] + meth + ['}', '']
+    # ---- methods whose receiver renders without a closing delimiter: unit-like enum variants, built-in keyed receivers (extension trait)
+    nodem = []; extm = []; ext_sigs = []
+    for (nm, flav, rty, args, kw) in [
+        ('n_slot', 'G', 'Node', (('a', 'u64'),), {}), ('n_slot_t', 'T', 'Node', (('a', 'u64'),), {}), ('n_slot_a', 'A', 'Node', (('a', 'u64'),), {}),
+        ('n_slot2', 'G', 'Node', (('a', 'u64'), ('b', 'String')), {}),
+        ('x_ext', 'G', 'u32', (('a', 'u64'),), {}), ('x_ext_t', 'T', 'u32', (('a', 'u64'),), dict(limit=2, policy='lru')), ('x_ext2', 'G', 'u32', (('a', 'u64'), ('b', 'i32')), {}),
+    ]:
+        r = add(nm, flav, args=args, recv='&self', group='method2', body='env::body2({id}, *self as u64, a)', **kw)
+        r['recv_ty'] = rty
+        if rty == 'Node': nodem += ['    ' + l for l in render(r)]
+        else:
+            lines_ = render(r)
+            extm += ['    ' + l.replace('pub fn', 'fn').replace('pub async fn', 'async fn') for l in lines_]
+            ext_sigs.append('    fn %s(&self, %s) -> %s;' % (nm, ', '.join(f'{a}: {t}' for a, t in args), r['ret']))
+    lines += ['#[derive(Debug, Clone, Copy, PartialEq)]', 'pub enum Node { Node1, Node11, Node110 }', 'impl cachelito_core::DefaultCacheableKey for Node {}',
+              'impl Node { pub fn parse(s: &str) -> Option<Node> { match s { "Node1" => Some(Node::Node1), "Node11" => Some(Node::Node11), "Node110" => Some(Node::Node110), _ => None } } }',
+              'impl Node {'] + nodem + ['}', '']
+    lines += ['pub trait Ext {'] + ext_sigs + ['}', 'impl Ext for u32 {'] + extm + ['}', '']
     # ---- dispatch tables for the native replay (subjects whose arguments are all u64)
     syn = []; asy = []
     for r in S:
-        if any(t != 'u64' for a, t in r['args']): continue
+        if any(t != 'u64' for a, t in r['args']) or r['group'] == 'method2': continue
         call = ('Svc { id: recv as u32 }.' if r['recv'] else '') + r['name'] + '(' + ', '.join(f'a[{i}]' for i in range(len(r['args']))) + ')'
         if r['flavour'] == 'A': asy.append(f'        "{r["name"]}" => Some(format!("{{:?}}", {call}.await)),')
         else: syn.append(f'        "{r["name"]}" => Some(format!("{{:?}}", {call})),')
@@ -246,10 +286,12 @@ def main():
         return None
     ksyn = []; kasy = []
     for r in S:
-        if r['recv'] or not r['args']: continue
-        cs = [conv(t, i) for i, (a, t) in enumerate(r['args'])]
+        if (r['recv'] and r['group'] != 'method2') or not r['args']: continue
+        off = 1 if r['recv'] else 0
+        cs = [conv(t, i + off) for i, (a, t) in enumerate(r['args'])]
         if any(c is None for c in cs): continue
         call = r['name'] + '(' + ', '.join(cs) + ')'
+        if r['recv']: call = ('Node::parse(&a[0])?.' if r['recv_ty'] == 'Node' else 'a[0].parse::<u32>().ok()?.') + call
         if r['flavour'] == 'A': kasy.append(f'        "{r["name"]}" => Some(format!("{{:?}}", {call}.await)),')
         else: ksyn.append(f'        "{r["name"]}" => Some(format!("{{:?}}", {call})),')
     lines += ['fn dec(t: &str) -> Option<String> {', '    let h = t.strip_prefix("s:")?;', '    let mut b = Vec::new(); let mut it = h.split(\'%\').skip(1);',
